@@ -25,9 +25,83 @@ fn nontrivial(id: &str, bytes: &[u8]) -> bool {
     }
 }
 
+/// Structured targets (C01 / C02 / C03 / C14): the fuzzer's bytes are decoded into a case by `ufuzz`.
+fn run_structured(id: &str, target: &str, cmd: &str, path: &Path, seed: u64) -> i32 {
+    use crate::ufuzz;
+    match cmd {
+        "corpus" => {
+            if std::fs::create_dir_all(path).is_err() {
+                return 2;
+            }
+            // any byte string decodes to a valid case: seed with random strings of graded length
+            let lens = [0usize, 16, 64, 128, 256, 512, 1024, 2048, 4096, 8192];
+            for (i, n) in lens.iter().enumerate() {
+                for j in 0..3 {
+                    let b = runner::draw(&vec(proptest::prelude::any::<u8>(), *n), seed, "fuzz-corpus-structured", i * 3 + j);
+                    let _ = std::fs::write(path.join(format!("seed-{:03}", i * 3 + j)), b);
+                }
+            }
+            println!("{} seed files written to {}", lens.len() * 3, path.display());
+            0
+        }
+        "artifact" => {
+            let bytes = match std::fs::read(path) {
+                Ok(b) => b,
+                Err(e) => {
+                    eprintln!("cannot read {}: {}", path.display(), e);
+                    return 2;
+                }
+            };
+            let r = runner::guard(|| ufuzz::run_target(target, &bytes));
+            let (f, case, sub) = match r {
+                Ok(Ok(())) => {
+                    println!("artifact {}: property holds on the decoded case under the harness oracle", path.display());
+                    return 0;
+                }
+                Ok(Err((f, case, _, sub))) => (f, case, sub),
+                Err(p) => (Fail::new("panic:oracle-or-code", p), ufuzz::case_json(target, &bytes), ufuzz::sub_for(target)),
+            };
+            if f.sig.starts_with("inconclusive") {
+                println!("INCONCLUSIVE property={} {}", id, f.detail);
+                return 2;
+            }
+            let doc = json!({"property": id, "sub": sub, "sig": f.sig, "detail": f.detail, "case": case});
+            let text = serde_json::to_string_pretty(&doc).unwrap_or_default();
+            let dir = runner::verif_root().join("work").join("replay");
+            let _ = std::fs::create_dir_all(&dir);
+            let out = dir.join(format!("{}-{:016x}.json", id, hash_bytes(text.as_bytes())));
+            let _ = std::fs::write(&out, text);
+            println!("VIOLATION property={} replay={}", id, out.display());
+            println!("  fuzz artifact {} (structured target {}) [{}]: {}", path.display(), target, f.sig, runner::truncate(&f.detail, 1000));
+            1
+        }
+        _ => {
+            let mut n = 0u64;
+            let mut seen = HashSet::new();
+            let mut samples = Vec::new();
+            if let Ok(rd) = std::fs::read_dir(path) {
+                for e in rd.filter_map(|e| e.ok()) {
+                    if let Ok(b) = std::fs::read(e.path()) {
+                        n += 1;
+                        let (nontrivial, summary) = ufuzz::describe(target, &b);
+                        if nontrivial && seen.insert(hash_bytes(&b)) && samples.len() < 3 {
+                            samples.push(json!({"len": b.len(), "decoded_case": summary}));
+                        }
+                    }
+                }
+            }
+            println!("{}", json!({"files": n, "distinct_nontrivial": seen.len(), "samples": samples}));
+            0
+        }
+    }
+}
+
 pub fn run(id: &str, cmd: &str, path: &Path, seed: u64) -> i32 {
+    if let Some(target) = crate::ufuzz::target_for(id) {
+        return run_structured(id, target, cmd, path, seed);
+    }
     if id != "C04" && id != "C06" {
-        eprintln!("fuzz support exists for C04 and C06 only");
+        eprintln!("fuzz support exists for C01, C02, C03, C04, C06 and C14 only");
         return 2;
     }
     match cmd {
